@@ -245,6 +245,19 @@ struct Explorer {
         unlink(f1.c_str()); unlink(f2.c_str()); unlink(raw.c_str());
     }
 
+    // raw input files whose size is a multiple of the page size (or just around it): unmapping the input with a wrong length would
+    // tear down a neighbouring mapping
+    void page_family() {
+        size_t per_page = 4096 / sizeof(K);
+        for (size_t n : {per_page - 1, per_page, per_page + 1, 2 * per_page, 2 * per_page - 3}) {
+            std::vector<K> data(n); for (size_t i = 0; i < n; ++i) data[i] = K(K(1) + K(i % 1000) * 3 + K(i / 1000) * 3000);
+            std::sort(data.begin(), data.end());
+            std::string desc = "pagefamily_n=" + std::to_string(n);
+            std::vector<K> queries = {data[0], K(data[0] - 1), data[n / 2], K(data[n / 2] + 1), data[n - 1], K(data[n - 1] + 1)};
+            run.add(cn.arrays); run.add(cn.nontrivial);
+            for (const char *h : {"R,W,O1,O2", "W,R,O2,O1", "R,W,X1,O2", "W,R,X0,O1", "R,O1,W,X0", "R,W,X0,O2"}) { if (run.deadline_passed()) return; run_history(data, queries, h, desc); }
+        }
+    }
     int hist_len = 4, c12_max_len = 3;
     std::vector<std::string> hists;
     void check_c12(const std::vector<K> &data, const std::string &desc) {
@@ -258,6 +271,7 @@ struct Explorer {
     void replay(const std::map<std::string, std::string> &m) {
         std::vector<K> data; std::string desc;
         if (m.count("family")) { large_family(ks::FamilySpec::parse(m.at("family"))); return; }
+        if (m.count("pagefamily_n")) { page_family(); return; }
         if (m.count("runs")) { data = runs_data(m.at("runs")); desc = "runs=" + m.at("runs"); }
         else { data = mc::parse_keys<K>(m.at("data")); desc = "data=" + m.at("data"); }
         printf("replay: cfg=%s n=%zu\n", cfg, data.size());
@@ -279,8 +293,11 @@ struct Thunk {
         Explorer<K, E, R> ex{r, c, prop, name()}; ex.hist_len = hist_len; ex.c12_max_len = hist_len >= 4 ? 4 : 3;
         if (t.kind == 0) ex.small_scope(t.palette, t.len, t.first);
         else if (t.kind == 1) ex.run_family(t.l0);
+        else if (t.kind == 5) ex.page_family();
         else if (t.kind == 2) {
             for (long w = t.w_lo; w < t.w_hi && !r.deadline_passed(); w += 4) { ks::FamilySpec s; s.kind = "seam"; s.n = 32768; s.chunks = t.p; s.seam = 0; s.word = w; if (w == t.w_lo + 8) r.sample(ex.case_of("family=" + s.str(), "")); ex.large_family(s); }
+        } else if (t.kind == 4) {
+            for (long w = t.w_lo; w < t.w_hi && !r.deadline_passed(); ++w) { ks::FamilySpec s; s.kind = "density"; s.chunks = 1; s.rep = 300; s.width = 4; s.word = w; ex.large_family(s); }
         } else {
             for (long so : {-2L, -1L, 0L, 1L}) for (long eo : {-3L, -2L, -1L, 0L, 1L}) { if (r.deadline_passed()) break; ks::FamilySpec s; s.kind = "longrun"; s.n = 32768; s.chunks = t.p; s.seam = t.seam; s.rep = t.rep; s.width = so; s.word = eo; ex.large_family(s); }
         }
@@ -298,7 +315,7 @@ int main(int argc, char **argv) {
     Cn cn(run);
     g_parent = getpid();
     std::vector<CfgEntry> cfgs = {
-        CFG("mapped<i16,1,0>", 0, int16_t, 1, 0), CFG("mapped<u32,1,1>", 0, uint32_t, 1, 1), CFG("mapped<i64,2,1>", 0, int64_t, 2, 1), CFG("mapped<u64,1,4>", 0, uint64_t, 1, 4),
+        CFG("mapped<i16,1,0>", 0, int16_t, 1, 0), CFG("mapped<u32,1,1>", 0, uint32_t, 1, 1), CFG("mapped<i64,2,1>", 0, int64_t, 2, 1), CFG("mapped<u64,1,4>", 0, uint64_t, 1, 4), CFG("mapped<u64,2,64>", 0, uint64_t, 2, 64),
         CFG("mapped<u32,4,4>", 1, uint32_t, 4, 4), CFG("mapped<i64,128,4>", 1, int64_t, 128, 4), CFG("mapped<u64,1,2>", 1, uint64_t, 1, 2), CFG("mapped<i32,3,0>", 1, int32_t, 3, 0),
     };
     if (!opt.replay.empty()) {
@@ -332,6 +349,7 @@ int main(int argc, char **argv) {
             if (cfgs[c].tier == 1 && !thorough) continue;
             for (size_t l0 = 0; l0 < 16; ++l0) tasks.push_back({int(c), 1, 0, 0, 0, l0});
         }
+    if (prop == 12 || prop == 17) for (size_t c = 0; c < cfgs.size(); ++c) { if (cfgs[c].tier == 1 && !thorough) continue; tasks.push_back({int(c), 5, 0, 0, 0, 0}); }
     // chunked construction (n = 2^15, 2 and 20 chunks): seam-window words (every 4th) and long duplicate runs, 32/64-bit configurations
     if (prop == 11) {
         bool asan_build = false;
@@ -341,6 +359,7 @@ int main(int argc, char **argv) {
         for (size_t c = 0; c < cfgs.size(); ++c) {
             if (cfgs[c].tier == 1 && !thorough) continue;
             if (c == 0 || (asan_build && !thorough)) continue;   // int16 cannot hold 2^15 keys of the family
+            for (long w = 0; w < 256; w += 16) { Task t{int(c), 4, 0, 0, 0, 0}; t.w_lo = w; t.w_hi = w + 16; tasks.push_back(t); }   // density family: several levels
             for (long p : {2L, 20L}) {
                 for (long w = 0; w < 4096; w += 256) { Task t{int(c), 2, 0, 0, 0, 0}; t.p = p; t.w_lo = w; t.w_hi = w + 256; tasks.push_back(t); }
                 for (long j = 0; j < p; ++j) { if (p == 20 && !thorough && j > 1 && j < 18) continue; for (long len : {1L, 2L}) { if (j + len > p) continue; Task t{int(c), 3, 0, 0, 0, 0}; t.p = p; t.seam = j; t.rep = len; tasks.push_back(t); } }
@@ -360,8 +379,8 @@ int main(int argc, char **argv) {
     ev.states_counter = prop == 12 ? "history_steps_checked" : "arrays_stored"; ev.transitions_counter = "query_batteries_key_checked"; ev.nontrivial_counter = "arrays_with_2plus_distinct_keys";
     ev.rule = prop == 11
         ? "every non-decreasing sequence of length 1.." + std::to_string(N) + " over four 10-value palettes (signed and unsigned key types, values at lowest()/max-1) and the run family (up to three runs with lengths from {0,1,2,3,4,5,7,8,9,15,16,17,2E+1,2E+2,2E+3,4E+5}, adjacent or 1000 apart, last run ending at n) and, for chunked construction, the seam-window family (n=2^15, 2 and 20 chunks, every 4th of the 4096 window words at every seam and at the tail) and the long-run family (a duplicate run from around a chunk start to around a chunk end) is stored in a real MappedPGMIndex (file in a scratch directory); for every query of the alphabet lower_bound, upper_bound, count, contains are compared with the std algorithms, begin()/end()/size() with the vector. State = one stored array; transition = one query key; non-trivial = at least two distinct keys."
-        : "for every non-decreasing sequence of length 1.." + std::to_string(N) + " over the palettes (first key negative, zero, positive): every history of exactly " + std::to_string(hist_len) + " steps over {R: create f1 from the range, W: create f2 from a raw key file, O1/O2: reopen f1/f2, X<i>: destroy the i-th live object} respecting file existence; after every step every live object answers the full C11 battery, f1 and f2 are byte-identical, a reopened object's index members equal its creator's, and no file changed. State = one history step; non-trivial arrays have at least two distinct keys.";
-    ev.bounds = "N<=" + std::to_string(N) + (prop == 12 ? ", history length " + std::to_string(hist_len) : "") + "; configurations mapped<i16,1,0> mapped<u32,1,1> mapped<i64,2,1> mapped<u64,1,4>" + (thorough ? " mapped<u32,4,4> mapped<i64,128,4> mapped<u64,1,2> mapped<i32,3,0>" : "");
+        : "for every non-decreasing sequence of length 1.." + std::to_string(N) + " over the palettes (first key negative, zero, positive): every history of exactly " + std::to_string(hist_len) + " steps over {R: create f1 from the range, W: create f2 from a raw key file, O1/O2: reopen f1/f2, X<i>: destroy the i-th live object} respecting file existence; after every step every live object answers the full C11 battery, f1 and f2 are byte-identical, a reopened object's index members equal its creator's, and no file changed; plus a page-size family (raw inputs of exactly / around one and two pages, six histories each). State = one history step; non-trivial arrays have at least two distinct keys.";
+    ev.bounds = "N<=" + std::to_string(N) + (prop == 12 ? ", history length " + std::to_string(hist_len) : "") + "; configurations mapped<i16,1,0> mapped<u32,1,1> mapped<i64,2,1> mapped<u64,1,4> mapped<u64,2,64>" + (thorough ? " mapped<u32,4,4> mapped<i64,128,4> mapped<u64,1,2> mapped<i32,3,0>" : "");
     ev.assumptions = {"files live in a per-worker scratch directory on /dev/shm (or TMPDIR)", "ASan build only: file mappings are served right-aligned against a PROT_NONE guard page (8-byte slack at most), so over-reads past the mapped file fault", "the harness closes the descriptors that MappedPGMIndex::map_file leaks (the mappings stay valid)"};
     return run.finish(ev);
 }
